@@ -49,14 +49,15 @@ name_chars = st.one_of(
 def _printable(s):
     # the third-party toml 0.10.2 writer escapes non-printable characters (NBSP, SHY, C0/C1 …) as \xNN, which its own
     # reader rejects or mangles: not nanoemoji's code, excluded
-    return all(ch.isprintable() or ch in "\t\n" for ch in s)
+    # (and it leaves a literal backslash followed by "x" unescaped, producing a file it cannot read back)
+    return all(ch.isprintable() or ch in "\t\n" for ch in s) and "\\x" not in s
 
 
 file_stem = st.lists(name_chars, min_size=1, max_size=12).map("".join).filter(lambda s: s not in (".", "..") and "\n" not in s and "\r" not in s and _printable(s))
 
 text_value = st.one_of(
     st.sampled_from(["An Emoji Family", "features.fea", "x", "a b", 'q"uote', "back\\slash", "hash # = [br]", "tab\there", "nl\nline", "😀 family", "ünï", "'single'", ""]),
-    st.text(st.characters(blacklist_categories=("Cc", "Cs", "Cn"), max_codepoint=0x1FFFF), max_size=12).filter(lambda s: all(ch.isprintable() for ch in s)),
+    st.text(st.characters(blacklist_categories=("Cc", "Cs", "Cn"), max_codepoint=0x1FFFF), max_size=12).filter(lambda s: all(ch.isprintable() for ch in s) and "\\x" not in s),
 )
 
 
